@@ -30,3 +30,18 @@ def div_mul_cancel(i, z):
     USED.add('div_mul_cancel')
     return z3.Implies(z3.And(i > BV(-(1 << 40), 64), i < BV(1 << 40, 64), z > 0, z < BV(1 << 20, 64)),
                       z3.And((i * z) / z == i, z3.SRem(i * z, z) == 0))
+
+
+def mul_tdiv_overflow(z, n, width=130):
+    """Arith.mul_tdiv_overflow + Arith.wrap64_id, read on bit-vectors (bvmul on 64 bits = wrap64 of the mathematical
+    product, bvsdiv = truncating division, the `width`-bit product of the sign-extended operands = the mathematical
+    product):  0 < z, 0 <= n  ==>
+        ((z*n) sdiv z == n)  <=>  wide(z)*wide(n) <= 2^63 - 1      and
+        wide(z)*wide(n) <= 2^63 - 1  ==>  sign_extend(z*n) == wide(z)*wide(n)"""
+    USED.add('mul_tdiv_overflow')
+    wz, wn = z3.SignExt(width - 64, z), z3.SignExt(width - 64, n)
+    pw = wz * wn
+    fits = pw <= z3.BitVecVal((1 << 63) - 1, width)
+    return z3.Implies(z3.And(z > 0, n >= 0),
+                      z3.And(((z * n) / z == n) == fits, z3.Implies(fits, z3.SignExt(width - 64, z * n) == pw),
+                             pw >= 0))
